@@ -385,6 +385,8 @@ def ranges_of(values):
 
 
 def in_ranges(x, ranges):
+    if isinstance(x, SInt):
+        x = x.e
     if isinstance(x, int):
         return any(lo <= x <= hi for lo, hi in ranges)
     alts = []
@@ -1526,6 +1528,19 @@ def _is_dec(x):
     return in_ranges(x, [(48, 57)])
 
 
+def _hexdigit_char(d):
+    if isinstance(d, int):
+        return 48 + d if d < 10 else 87 + d
+    return z3.If(d < 10, 48 + d, 87 + d)
+
+
+def _backslash_x(x):
+    """code points of '\\xNN' for byte value x"""
+    if isinstance(x, int):
+        return (92, 120, _hexdigit_char(x // 16), _hexdigit_char(x % 16))
+    return (92, 120, _hexdigit_char(x / 16), _hexdigit_char(x % 16))
+
+
 def parse_int_seq(seq, base=10):
     """model of int(<bytes/str>, base) for base 10/16.  Exact when every element
     is an ASCII digit of the base (decided by one fork); otherwise the elements
@@ -1591,6 +1606,8 @@ class SBytes(SSeq):
                 pass
             elif errors == "replace":
                 out.append(0xFFFD)
+            elif errors == "backslashreplace":
+                out.extend(_backslash_x(x))
             else:
                 raise UnicodeDecodeError("ascii", b"?", i, i + 1, "ordinal not in range(128)")
         return SStr.mk(out)
@@ -1655,6 +1672,9 @@ class SBytes(SSeq):
                 i += 1
             elif errors == "replace":
                 out.append(0xFFFD)
+                i += 1
+            elif errors == "backslashreplace":
+                out.extend(_backslash_x(x))
                 i += 1
             else:
                 raise UnicodeDecodeError("utf-8", b"?", i, i + 1, "invalid start byte")
